@@ -16,15 +16,41 @@ tier = "quick"
 for i, a in enumerate(sys.argv):
     if a == "--checks": checks = sys.argv[i+1].split(",")
     if a == "--tier": tier = sys.argv[i+1]
-wt = "/tmp/mut/%s" % pid
-out = os.path.join(wt, "out")
-patch = os.path.join(out, "%s.patch.diff" % x)
-meta = json.load(open(os.path.join(out, "%s.meta.json" % x)))
+srcwt = "/tmp/mut/%s" % pid       # where the sub-agent worked (its out*/ directories)
+wt = "/tmp/mutv/%s" % pid         # a separate clean worktree used only for confirmation
 dst = "/verif/seeded/%s-%s" % (pid, x)
 os.makedirs(dst, exist_ok=True)
+out = os.path.join(wt, "out")
+shutil.rmtree(out, ignore_errors=True)
+os.makedirs(out)
+srcdir = None
+for cand in ("out", "out2", "out1"):
+    c = os.path.join(srcwt, cand)
+    if os.path.exists(os.path.join(c, "%s.patch.diff" % x)) and os.path.exists(os.path.join(c, "%s.meta.json" % x)):
+        srcdir = c
+if srcdir is not None and not os.path.exists(os.path.join(dst, "patch.diff")):
+    for f in os.listdir(srcdir):
+        if f.startswith(x + "."):
+            p0 = os.path.join(srcdir, f)
+            if os.path.isdir(p0): shutil.copytree(p0, os.path.join(out, f))
+            else: shutil.copy(p0, os.path.join(out, f))
+else:
+    # the copy kept under /verif/seeded is the source of truth
+    shutil.copy(os.path.join(dst, "patch.diff"), os.path.join(out, "%s.patch.diff" % x))
+    m0 = json.load(open(os.path.join(dst, "meta.json")))
+    json.dump({k: m0.get(k) for k in ("property", "summary", "needs", "files", "demo_cmd")}, open(os.path.join(out, "%s.meta.json" % x), "w"))
+    for f in os.listdir(dst):
+        if f.startswith(x + ".demo"):
+            p0 = os.path.join(dst, f)
+            if os.path.isdir(p0): shutil.copytree(p0, os.path.join(out, f))
+            else: shutil.copy(p0, os.path.join(out, f))
+open(os.path.join(out, "go.mod"), "w").write("module out\n")
+patch = os.path.join(out, "%s.patch.diff" % x)
+meta = json.load(open(os.path.join(out, "%s.meta.json" % x)))
 res = {"property": pid, "variant": x, "summary": meta.get("summary"), "needs": meta.get("needs"), "files": meta.get("files"), "demo_cmd": meta.get("demo_cmd")}
 # ---- 1. confirm in the scratch worktree
-sh("git checkout -- . && git clean -fdq -e out", wt)
+CLEAN = "git checkout -- . && git clean -fdq -e 'out*' -e '_out*'"
+sh(CLEAN, wt)
 hide = "mv out _out"; unhide = "mv _out out"
 rc, o = sh("git apply out/%s.patch.diff" % x, wt)
 res["applies"] = rc == 0
@@ -37,11 +63,11 @@ rc1, o1 = sh("timeout 300 bash -c %r" % demo, wt, timeout=400)
 failed1 = rc1 != 0 or re.search(r"^(--- FAIL|FAIL|panic:|fatal error)", o1, re.M) is not None
 res["demo_with_change"] = "fails (expected)" if failed1 else "PASSES (unexpected)"
 res["demo_with_change_tail"] = o1[-400:]
-sh("git checkout -- . && git clean -fdq -e out", wt)
+sh(CLEAN, wt)
 rc2, o2 = sh("timeout 300 bash -c %r" % demo, wt, timeout=400)
 failed2 = rc2 != 0 or re.search(r"^(--- FAIL|FAIL|panic:|fatal error)", o2, re.M) is not None
 res["demo_without_change"] = "passes (expected)" if not failed2 else "FAILS (unexpected): " + o2[-300:]
-sh("git checkout -- . && git clean -fdq -e out", wt)
+sh(CLEAN, wt)
 res["confirmed"] = res["applies"] and res["build_vet_tests_with_change"] == "ok" and failed1 and not failed2
 # ---- 2. run the checks against /repo with the change applied
 rc, o = sh("git status --porcelain", "/repo")
